@@ -162,6 +162,10 @@ impl TheDrawFont {
             if bytes[o] == 0 {
                 break;
             }
+            if bytes.len() < o + THE_DRAW_FONT_HEADER_SIZE - THE_DRAW_FONT_ID.len() - 2 {
+                // every font record starts with a fixed-size header (indicator .. character table)
+                return Err(TdfError::FileTooShort.into());
+            }
             let indicator = u32::from_le_bytes(bytes[o..(o + 4)].try_into().unwrap());
             if indicator != FONT_INDICATOR {
                 return Err(TdfError::FontIndicatorMismatch.into());
